@@ -101,6 +101,13 @@ class Partial:
 
 
 @dataclass(frozen=True)
+class PartialMethod:
+    fn: Any  # functools.partialmethod(fn, *args, **kwargs) found on a class: the instance is passed first
+    args: tuple
+    kwargs: tuple
+
+
+@dataclass(frozen=True)
 class Opaque:
     tag: str = ""
 
@@ -127,6 +134,7 @@ class CollCell:
         self.shared = ""  # where this one object was stored under many keys of a dictionary (dict.fromkeys(keys, obj), d[k] = obj in a loop)
         self.order = None  # None = unknown | ("unsorted",) | ("sorted", key signature): what is known about the order of the elements
         self.scope = born  # iterations of which the collection is a per-element temporary (shrinks when it is stored in a longer-lived container)
+        self.origin = born  # for a view (copy made while re-tagging): the iterations that were running when the collection it shows was created
 
 
 class DictCell:
@@ -136,6 +144,7 @@ class DictCell:
         self.born = born
         self.shared = ""
         self.scope = born
+        self.factory: frozenset = E  # defaultdict(factory): what creates the value of a key that is looked up for the first time
 
 
 class ObjCell:
@@ -174,6 +183,8 @@ class Interp:
         self.eids: dict = {}
         self.eid_info: dict[int, str] = {}
         self.loop_eids: set = set()  # identities that stand for iterations of for-loops / comprehensions
+        self.loop_srcs: dict = {}  # iteration identity -> provenance tags of the elements iterated over
+        self.loop_parents: dict = {}  # iteration identity -> identities of the iterations the iterated elements already stem from
         self.closures: list[dict] = []
         self.stack: list[str] = []
         self.guards: list[list] = []  # data-dependent conditions guarding the calls on the stack
@@ -193,6 +204,9 @@ class Interp:
         self.pseudo: set = set()  # identities of elements selected by index / pop (always current)
         self.collectors: list = []  # (uncertainty level, fields definitely written) per open branch of an undecided `if`
         self.scalar_calls: list = []  # (method name, provenance tags of the scalar receiver)
+        self.stmt_call = None  # the call that makes up the expression statement being interpreted
+        self.in_while = 0  # > 0 while the body of a `while` loop is interpreted (picks there are how the loop iterates)
+        self._accumulating = False
 
     # ------------------------------------------------------------------ heap
     def cell(self, ref: Ref):
@@ -251,6 +265,21 @@ class Interp:
             c.elem |= new
             self.version += 1
 
+    @staticmethod
+    def effective_part(c) -> set:
+        """Incompleteness marks of a collection; an element added under `T` in one branch and under `not T` in the other branch
+        of the same test is added either way: the two marks cancel."""
+        part = c.part
+        if len(part) < 2:
+            return part
+        gone = set()
+        for m in part:
+            if m[0] == "part" and m[2].startswith("only if `not "):
+                twin = next((o for o in part if o[0] == "part" and o[1] == m[1] and o[2] == "only if `" + m[2][len("only if `not "):]), None)
+                if twin is not None:
+                    gone |= {m, twin}
+        return part - gone if gone else part
+
     def add_part(self, ref: Ref, marks) -> None:
         c = self.cells[ref.key]
         new = set(marks) - c.part
@@ -289,10 +318,40 @@ class Interp:
                     c.shared = where
                     self.version += 1
 
-    def store_entry(self, ref: Ref, k: frozenset, v: frozenset, explicit: str = "") -> None:
+    def overwritten(self, k: frozenset, v: frozenset, where: str, key, same_element: bool = False) -> frozenset:
+        """`d[k] = v` / `{k: v for ...}` executed once per pair of a bucket, where k is made of one side of the pair only and v
+        directly carries the other side of the same pair: pairs that agree in k overwrite each other, all but one are lost.
+        (Values that are collections are not meant: `d[k] = [v]` is the first step of an accumulation.)"""
+        found = [sc for sc in self.scalars(k, into_colls=False) if "search" in sc.srcs]
+        if found:
+            # index of graph nodes: the key is a node found by a search for the current module X, the value is X itself - a node
+            # that lies in the sub trees of several requested modules (a package and one of its sub modules) keeps the last one only
+            live = frozenset().union(*[self.live(sc.eids - sc.gone) for sc in found]) & frozenset(self.loop_eids)
+            owners = [sc for sc in self.scalars(v, into_colls=False) if sc.srcs and "search" not in sc.srcs and (sc.eids - sc.gone) & live]
+            if live and owners:
+                why = "a node found for several of the given modules is stored under one key and keeps only the module stored last (the given modules may contain one another)"
+                return self.with_marks(v, [("part", where, why, False)], ("own", key))
+            return v
+        ks = [sc for sc in self.scalars(k, into_colls=False) if sc.roles and sc.srcs]
+        if not ks:
+            return v
+        kroles = frozenset().union(*[sc.roles for sc in ks])
+        live = frozenset().union(*[self.live(sc.eids - sc.gone) for sc in ks]) & frozenset(self.loop_eids)
+        if not (live or same_element) or kroles >= {"S", "O"}:
+            return v
+        lost = [sc for sc in self.scalars(v, into_colls=False) if sc.roles and sc.srcs and not sc.roles <= kroles and (same_element or (sc.eids - sc.gone) & live) and not sc.agg]
+        if not lost:
+            return v
+        names = {"S": "rule subject", "O": "rule object"}
+        why = f"entries are stored under a key made of the {' and '.join(names[r] for r in sorted(kroles))} only: pairs that agree in it overwrite each other"
+        return self.with_marks(v, [("part", where, why, False)], ("ow", key))
+
+    def store_entry(self, ref: Ref, k: frozenset, v: frozenset, explicit: str = "", accumulating: bool = False) -> None:
         if explicit:
             self.note_shared(k, v, explicit)
             v = self.runs_to_parts(v, (ref.key, explicit))
+            if not accumulating:
+                v = self.overwritten(k, v, explicit, ref.key)
         c = self.cells[ref.key]
         k, v = self.escape(c, k), self.escape(c, v)
         if (k, v) not in c.entries:
@@ -306,6 +365,12 @@ class Interp:
             self.tops.append(why)
         return V(Top(why))
 
+    def note_lost(self, why: str) -> None:
+        """The interpreter may have lost track of some data here (no value becomes Top): rules that find something *missing* must
+        answer undecided."""
+        if why not in self.tops:
+            self.tops.append(why)
+
     def site(self, fr: Frame | None, node: ast.AST | None) -> str:
         if fr is None or node is None:
             return ""
@@ -318,11 +383,18 @@ class Interp:
         act = set(self.active) | self.pseudo
         return frozenset(e for e in eids if e in act)
 
-    def pick(self, v: frozenset, key, label: str) -> frozenset:
-        """One element selected from a collection by index / pop / next: its parts stem from the same element."""
+    def pick(self, v: frozenset, key, label: str, only: str = "") -> frozenset:
+        """One element selected from a collection by index / pop / next: its parts stem from the same element.
+        `only`: the selection is a fixed one (`xs[0]`, `next(it)` outside a `while` loop) - the rule objects of the other elements
+        are not looked at through this expression (the rule subject of a group may well be read off its first pair)."""
         e = self.eid(("pick", key), label)
         self.pseudo.add(e)
-        return self.retag(v, e, ("pick", key))
+        out = self.retag(v, e, ("pick", key))
+        if only and not self.in_while:
+            grouped = any(self.live(sc.assoc - sc.gone) for sc in self.scalars(out))
+            mark = ("part", label, only, grouped)
+            out = self.map_scalars(out, lambda sc: replace(sc, marks=sc.marks | {mark}) if sc.roles == {"O"} and sc.srcs and not sc.agg else sc, ("pickmark", key))
+        return out
 
     def scalars(self, v: frozenset, depth: int = 0, into_colls: bool = True) -> list[Sc]:
         """All scalar shapes inside a value (tuple items, object fields, elements of collections)."""
@@ -339,7 +411,7 @@ class Interp:
                 out += self.scalars(self.elems(V(sh)), depth + 1, into_colls)
             elif isinstance(sh, Ref) and sh.kind == "obj":
                 c = self.cell(sh)
-                if c.ci is not None and c.ci.is_dataclass:
+                if self.is_record(c.ci):
                     for fv in c.fields.values():
                         out += self.scalars(fv, depth + 1, into_colls)
         return out
@@ -376,9 +448,10 @@ class Interp:
                 src = self.cell(sh)
                 r = self.coll(k, src.site)
                 self.cell(r).order = src.order  # a view has the order of what it shows
+                self.cell(r).origin = src.origin
                 self.add(r, self.map_scalars(self.elems(V(sh)), f, (key, "e"), depth + 1))
                 out.add(r)
-            elif isinstance(sh, Ref) and sh.kind == "obj" and self.cell(sh).ci is not None and self.cell(sh).ci.is_dataclass:
+            elif isinstance(sh, Ref) and sh.kind == "obj" and self.is_record(self.cell(sh).ci):
                 src = self.cell(sh)
                 k = (key, "o", sh.key)
                 r = self.obj(k, src.ci, src.site)
@@ -401,8 +474,9 @@ class Interp:
         for sh in v:
             if isinstance(sh, Ref) and sh.kind == "coll":
                 c = self.cell(sh)
-                if c.part:
-                    out |= self.with_marks(frozenset(c.elem), c.part, ("pm", sh.key))
+                part = self.effective_part(c)
+                if part:
+                    out |= self.with_marks(frozenset(c.elem), part, ("pm", sh.key))
                 else:
                     out |= c.elem
             elif isinstance(sh, Ref) and sh.kind == "dict":
@@ -422,12 +496,62 @@ class Interp:
                 out.add(sh)
             elif isinstance(sh, Ref) and sh.kind == "obj":
                 c = self.cell(sh)
-                if c.ci is not None and any(b.rsplit(".", 1)[-1] == "NamedTuple" for b in self.repo.external_bases(c.ci)):
-                    for fv in c.fields.values():
-                        out |= fv
+                if self.is_namedtuple(c.ci):
+                    for n in self.record_fields(c.ci):
+                        out |= self.attr(V(sh), n, c.ci.node, {}, self.module_frame(c.ci.module, ("iter", c.ci.fq))) if n in c.fields else E
+                elif c.ci is not None and self.repo.lookup_method(c.ci, "__iter__") is not None:
+                    m_iter = self.repo.lookup_method(c.ci, "__iter__")
+                    # the calling context is the object itself (its cell is per construction site and context)
+                    out |= self.elems(self.call_fn(m_iter, V(sh), [], {}, c.ci.node, Frame(m_iter, ("iter", sh.key), {})))
                 else:
                     out |= self.top(f"iteration over an instance of {c.ci.name if c.ci else 'an object'} is not modelled")
+            elif isinstance(sh, Cls) and self.is_enum(sh.fq):
+                for n in self.enum_members(sh.fq):
+                    out |= self.enum_member(sh.fq, n)
+            elif isinstance(sh, (Cls, Lib, Fn, Getter, Partial)):
+                out |= self.top(f"iteration over {type(sh).__name__} {getattr(sh, 'fq', getattr(sh, 'name', ''))} is not modelled")
         return frozenset(out)
+
+    # ------------------------------------------------------------------ records
+    def is_record(self, ci: ClassInfo | None) -> bool:
+        """dataclass or NamedTuple: an object that is nothing but its fields."""
+        if ci is None:
+            return False
+        k = ("rec", ci.fq)
+        if k not in self._gen_cache:
+            self._gen_cache[k] = any(c.is_dataclass for c in self.repo.mro(ci)) or self.is_namedtuple(ci)
+        return self._gen_cache[k]
+
+    def is_namedtuple(self, ci: ClassInfo | None) -> bool:
+        return ci is not None and any(b.rsplit(".", 1)[-1] == "NamedTuple" for b in self.repo.external_bases(ci))
+
+    def record_fields(self, ci: ClassInfo) -> list[str]:
+        fields: list[str] = []
+        for c in reversed(self.repo.mro(ci)):
+            for n in c.ann_attrs:
+                if n not in fields:
+                    fields.append(n)
+        return fields
+
+    # ------------------------------------------------------------------ enumerations
+    def is_enum(self, fq: str) -> bool:
+        ci = self.repo.classes.get(fq)
+        return ci is not None and any(b.rsplit(".", 1)[-1] in ("Enum", "IntEnum", "StrEnum", "Flag", "IntFlag") for b in self.repo.external_bases(ci))
+
+    def enum_members(self, fq: str) -> list[str]:
+        ci = self.repo.classes[fq]
+        return [n for n in ci.class_attrs if not n.startswith("_")]
+
+    def enum_member(self, fq: str, name: str) -> frozenset:
+        ci = self.repo.classes[fq]
+        r = self.obj(("enum", fq, name), ci, ci.module.relpath)
+        if "name" not in self.cell(r).fields:
+            ce = ci.class_attrs[name]
+            val = V(Const(ce.value)) if isinstance(ce, ast.Constant) else (self.ev(ce, {}, self.module_frame(ci.module, ("enum", fq, name))) if self.static_expr(ci.module, ce) else V(Opaque(f"{fq}.{name}")))
+            self.cell(r).fields["name"] = V(Const(name))
+            self.cell(r).fields["value"] = val
+            self.cell(r).fields["_value_"] = val
+        return V(r)
 
     def derive(self, parts: list[frozenset], fr: Frame | None, node: ast.AST | None, check: bool = True, agg: bool = False, none: bool = False) -> frozenset:
         """Scalar computed from the given values (formatting, concatenation, attribute of, library function of)."""
@@ -558,7 +682,7 @@ class Interp:
                 out.add(Tup(tuple(self.retag(it, e, (key, "t", i), extra) for i, it in enumerate(sh.items)), sh.site))
             elif isinstance(sh, Ref) and sh.kind == "coll":
                 out |= self.map_scalars(V(sh), nested, (key, "n"))
-            elif isinstance(sh, Ref) and sh.kind == "obj" and self.cell(sh).ci is not None and self.cell(sh).ci.is_dataclass:
+            elif isinstance(sh, Ref) and sh.kind == "obj" and self.is_record(self.cell(sh).ci):
                 src = self.cell(sh)
                 r = self.obj((key, "o", sh.key), src.ci, src.site)
                 for n, fv in list(src.fields.items()):
@@ -638,33 +762,123 @@ class Interp:
         return V(Lib(fq))
 
     def module_constant(self, mod, name: str) -> frozenset:
-        """Value of a module level constant: literals (also nested displays and references to other constants) are evaluated."""
+        """Value of a module level constant: literals (also nested displays and references to other constants) and *callable
+        constants* (`itemgetter(1, 0)`, `attrgetter(...)`, `partial(f, ...)`, a lambda, a reference to a function, a dispatch table
+        of those) are evaluated; anything else is an object the interpreter knows nothing about."""
         c = mod.constants[name]
         if isinstance(c, ast.Constant):
             return V(Const(c.value))
-
-        def literal(e: ast.AST, depth: int = 0) -> bool:
-            if depth > 6:
-                return False
-            if isinstance(e, ast.Constant):
-                return True
-            if isinstance(e, (ast.Tuple, ast.List, ast.Set)):
-                return all(literal(x, depth + 1) for x in e.elts)
-            if isinstance(e, ast.Dict):
-                return all(k is not None and literal(k, depth + 1) and literal(v, depth + 1) for k, v in zip(e.keys, e.values))
-            if isinstance(e, ast.Name):
-                return e.id in mod.constants and e.id != name and literal(mod.constants[e.id], depth + 1)
-            if isinstance(e, ast.Call) and isinstance(e.func, ast.Name) and e.func.id in ("frozenset", "set", "tuple", "list", "dict", "defaultdict", "OrderedDict") and not e.keywords:
-                return all(literal(x, depth + 1) or (isinstance(x, ast.Name) and x.id in ("str", "list", "set", "dict", "int")) for x in e.args)
-            return False
-
-        if not literal(c):
+        if not self.static_expr(mod, c, frozenset({name})):
             return V(Opaque(f"{mod.name}.{name}"))
-        fi = next(iter(mod.all_funcs), None) or next(iter(self.repo.funcs.values()))
-        fr = Frame(fi, ("const", mod.name, name), {})
-        if isinstance(c, ast.Call) and c.func.id in ("defaultdict",):
+        if isinstance(c, ast.Call) and isinstance(c.func, ast.Name) and c.func.id in ("defaultdict",):
             return V(self.dict_(("const", mod.name, name), mod.relpath))
-        return self.ev(c, {}, fr)
+        return self.ev(c, {}, self.module_frame(mod, ("const", mod.name, name)))
+
+    STATIC_CALLS = {"frozenset", "set", "tuple", "list", "dict", "defaultdict", "OrderedDict", "itemgetter", "attrgetter", "methodcaller", "partial", "staticmethod", "MappingProxyType", "Template", "partialmethod", "property"}
+
+    def static_expr(self, mod, e: ast.AST, seen: frozenset = E, depth: int = 0, scope: ClassInfo | None = None) -> bool:
+        """Can the module / class level expression be evaluated without running code of the repository?  (It is built from
+        literals, displays, lambdas, references to functions / classes / other such constants and the getter / partial factories.)"""
+        if depth > 8:
+            return False
+        if isinstance(e, ast.Constant):
+            return True
+        if isinstance(e, ast.Lambda):
+            return True
+        if isinstance(e, (ast.Tuple, ast.List, ast.Set)):
+            return all(self.static_expr(mod, x, seen, depth + 1, scope) for x in e.elts)
+        if isinstance(e, ast.Dict):
+            return all(k is not None and self.static_expr(mod, k, seen, depth + 1, scope) and self.static_expr(mod, v, seen, depth + 1, scope) for k, v in zip(e.keys, e.values))
+        if isinstance(e, ast.Name):
+            if scope is not None and e.id in scope.methods:
+                return True
+            if scope is not None and e.id in scope.class_attrs:
+                return e.id not in seen and self.static_expr(mod, scope.class_attrs[e.id], seen | {e.id}, depth + 1, scope)
+            if e.id in mod.functions or e.id in mod.classes or e.id in mod.imports:
+                return True
+            if e.id in mod.constants:
+                return e.id not in seen and self.static_expr(mod, mod.constants[e.id], seen | {e.id}, depth + 1, scope)
+            return e.id in ("True", "False", "None", "str", "list", "set", "dict", "int", "tuple", "frozenset", "reversed", "sorted", "len", "iter", "staticmethod", "property")
+        if isinstance(e, ast.Attribute):
+            # operator.itemgetter, itertools.chain.from_iterable, SomeClass.method
+            b = e.value
+            while isinstance(b, ast.Attribute):
+                b = b.value
+            return isinstance(b, ast.Name) and (b.id in mod.imports or b.id in mod.classes)
+        if isinstance(e, ast.Call):
+            f = e.func
+            fname = f.id if isinstance(f, ast.Name) else f.attr if isinstance(f, ast.Attribute) else ""
+            fq = self.repo.resolve_name(mod, f) if isinstance(f, (ast.Name, ast.Attribute)) else None
+            record = fq in self.repo.classes and self.is_record(self.repo.classes[fq]) and self.repo.lookup_method(self.repo.classes[fq], "__init__") is None and self.repo.lookup_method(self.repo.classes[fq], "__post_init__") is None
+            if not record and (fname not in self.STATIC_CALLS or not self.static_expr(mod, f, seen, depth + 1, scope)):
+                return False
+            return all(self.static_expr(mod, x, seen, depth + 1, scope) for x in e.args) and all(k.arg is not None and self.static_expr(mod, k.value, seen, depth + 1, scope) for k in e.keywords)
+        return False
+
+    def module_frame(self, mod, inv: tuple) -> Frame:
+        """Frame for expressions evaluated at module / class level of `mod`."""
+        fi = getattr(mod.tree, "_c03_frame_func", None)
+        if fi is None:
+            node = ast.Lambda(args=ast.arguments(posonlyargs=[], args=[], vararg=None, kwonlyargs=[], kw_defaults=[], kwarg=None, defaults=[]), body=ast.Constant(value=None))
+            node.lineno = node.col_offset = 0
+            fi = FuncInfo(name="<module>", qualname="<module>", node=node, module=mod)
+            mod.tree._c03_frame_func = fi  # type: ignore[attr-defined]
+        return Frame(fi, inv, {})
+
+    def lambda_func(self, e: ast.Lambda, fr: Frame) -> FuncInfo | None:
+        """Function info of a lambda; lambdas at module / class level are not indexed by the loader and get one here."""
+        nf = getattr(e, "_func", None)
+        if nf is None:
+            src = getattr(e, "_src", None)
+            nf = getattr(src[1], "_func", None) if src else None
+        if nf is None and fr.fi.name == "<module>":
+            nf = FuncInfo(name="<lambda>", qualname=f"<lambda@{getattr(e, 'lineno', 0)}:{getattr(e, 'col_offset', 0)}>", node=e, module=fr.fi.module)
+            e._func = nf  # type: ignore[attr-defined]
+        return nf
+
+    def find_method(self, ci: ClassInfo, name: str) -> FuncInfo | None:
+        """Method `name` as looked up on `ci`; None when a class level assignment (`name = partialmethod(...)`, an alias of
+        another method) comes first in the method resolution order."""
+        for k in self.repo.mro(ci):
+            if name in k.methods:
+                return k.methods[name]
+            if name in k.class_attrs:
+                return None
+        return None
+
+    def class_attr(self, ci: ClassInfo, name: str, recv: frozenset | None) -> frozenset | None:
+        """Value of a class level assignment `name = <expr>` looked up on an instance (`recv`) or on the class (recv None):
+        functions become bound methods, getter / partial objects and staticmethods do not."""
+        owner = next((k for k in self.repo.mro(ci) if name in k.class_attrs), None)
+        if owner is None:
+            return None
+        ce = owner.class_attrs[name]
+        if isinstance(ce, ast.Constant):
+            return V(Const(ce.value))
+        mod = owner.module
+        if not self.static_expr(mod, ce, frozenset({name}), 0, owner):
+            return V(Opaque(name))
+        static = isinstance(ce, ast.Call) and isinstance(ce.func, ast.Name) and ce.func.id == "staticmethod"
+        # names of the class body: methods (plain functions there) and the other class level assignments
+        env: dict = {}
+        for n in ast.walk(ce):
+            if isinstance(n, ast.Name) and n.id != name and n.id not in env:
+                if n.id in owner.methods:
+                    env[n.id] = V(Fn(owner.methods[n.id]))
+                elif n.id in owner.class_attrs:
+                    env[n.id] = self.class_attr(owner, n.id, None) or E
+        v = self.ev(ce, env, self.module_frame(mod, ("classattr", owner.fq, name)))
+        if recv is None or static:
+            return v
+        out = set()
+        for sh in v:
+            if isinstance(sh, Fn) and sh.recv is None:
+                out.add(Partial(V(sh), (recv,), ()))  # a function found on the class is a bound method
+            elif isinstance(sh, PartialMethod):
+                out.add(Partial(sh.fn, (recv, *sh.args), sh.kwargs))
+            else:
+                out.add(sh)
+        return frozenset(out)
 
     # ------------------------------------------------------------------ statements
     def exec_block(self, stmts: list[ast.stmt], env: dict | None, fr: Frame) -> dict | None:
@@ -706,12 +920,20 @@ class Interp:
         if self.steps > 400000:
             raise RuntimeError("abstract interpretation budget exceeded")
         if isinstance(s, ast.Expr):
+            self.stmt_call = s.value  # a call whose result is thrown away is made for its effect
             self.ev(s.value, env, fr)
             return env
         if isinstance(s, ast.Assign):
             v = self.ev(s.value, env, fr)
             for t in s.targets:
-                self.assign(t, v, env, fr)
+                if isinstance(t, ast.Subscript):
+                    # `d[k] = d.get(k, ()) + (x,)`: the new value is computed from the old one
+                    base = norm(t.value)
+                    self._accumulating = any(isinstance(n, (ast.Name, ast.Attribute)) and norm(n) == base for n in ast.walk(s.value))
+                try:
+                    self.assign(t, v, env, fr)
+                finally:
+                    self._accumulating = False
             return env
         if isinstance(s, ast.AnnAssign):
             if s.value is not None:
@@ -747,19 +969,26 @@ class Interp:
                 self.collectors.append((self.uncertain, wa))
                 fr.ctrl.append((s.test, True, kind, ce))
                 try:
-                    a = self.exec_block(s.body, dict(env), fr)
+                    a = self.exec_block(s.body, self.narrow(s.test, dict(env), True), fr)
                 finally:
                     fr.ctrl.pop()
                     self.collectors.pop()
                 self.collectors.append((self.uncertain, wc))
                 fr.ctrl.append((s.test, False, kind, ce))
                 try:
-                    c = self.exec_block(s.orelse, dict(env), fr)
+                    c = self.exec_block(s.orelse, self.narrow(s.test, dict(env), False), fr)
                 finally:
                     fr.ctrl.pop()
                     self.collectors.pop()
             finally:
                 self.uncertain -= 1
+            if (a is None) != (c is None):
+                # what follows runs only when the branch that left (returned / raised) was not taken
+                env_after = self.narrow(s.test, dict(c if a is None else a), c is None)
+                if a is None:
+                    c = env_after
+                else:
+                    a = env_after
             if (a is None) != (c is None) and fr.exits != exits:
                 fr.partial_exit += 1
                 # what follows in this block runs only when the branch that left was not taken
@@ -785,11 +1014,15 @@ class Interp:
                 fr.loops[-1]["cont"] = self.join_env(fr.loops[-1]["cont"], env)
             return None
         if isinstance(s, (ast.With, ast.AsyncWith)):
+            exits = []
             for it in s.items:
-                v = self.ev(it.context_expr, env, fr)
+                v = self.enter_context(it.context_expr, env, fr, exits)
                 if it.optional_vars is not None:
                     self.assign(it.optional_vars, v, env, fr)
-            return self.exec_block(s.body, env, fr)
+            out = self.exec_block(s.body, env, fr)
+            for obj, m in reversed(exits):
+                self.call_fn(m, obj, [NONE_V, NONE_V, NONE_V], {}, s, fr, caller_env=env)
+            return out
         if isinstance(s, ast.Try):
             pre = dict(env)
             a = self.exec_block(s.body, env, fr)
@@ -823,13 +1056,162 @@ class Interp:
             self.ev(s.test, env, fr)
             return env
         if isinstance(s, ast.Match):
-            self.ev(s.subject, env, fr)
+            sv = self.ev(s.subject, env, fr)
             out = None
-            for c in s.cases:
-                out = self.join_env(out, self.exec_block(c.body, dict(env), fr))
-            return self.join_env(out, env)
+            exhaustive = False
+            self.uncertain += 1
+            try:
+                for c in s.cases:
+                    verdict = self.pattern_verdict(c.pattern, sv, env, fr) if c.guard is None else (False if self.pattern_verdict(c.pattern, sv, env, fr) is False else None)
+                    if verdict is False:
+                        continue
+                    cenv = dict(env)
+                    self.bind_pattern(c.pattern, sv, cenv, fr)
+                    if c.guard is not None:
+                        gv = self.ev(c.guard, cenv, fr)
+                        if self.as_bool(gv) is False:
+                            continue
+                        if self.as_bool(gv) is None and self.classify_cond(c.guard, gv, cenv, fr) == "data":
+                            fr.ctrl.append((c.guard, True, "data", E))
+                            try:
+                                out = self.join_env(out, self.exec_block(c.body, cenv, fr))
+                            finally:
+                                fr.ctrl.pop()
+                            continue
+                    if verdict is True:
+                        exhaustive = True
+                        if out is None:
+                            # the one case that is taken
+                            self.uncertain -= 1
+                            try:
+                                return self.exec_block(c.body, cenv, fr)
+                            finally:
+                                self.uncertain += 1
+                    out = self.join_env(out, self.exec_block(c.body, cenv, fr))
+                    if verdict is True:
+                        break
+            finally:
+                self.uncertain -= 1
+            return out if exhaustive else self.join_env(out, env)
         if isinstance(s, (ast.Delete, ast.Global, ast.Nonlocal, ast.Import, ast.ImportFrom, ast.ClassDef)):
             return env
+        return env
+
+    def enter_context(self, e: ast.expr, env: dict, fr: Frame, exits: list) -> frozenset:
+        """Value bound by `with <e> as x`: what a @contextmanager generator yields (its body is interpreted as a whole - the part
+        after the yield runs before the with-body, which only makes collections it fills known earlier), the result of __enter__
+        for objects of repository classes (their __exit__ is interpreted after the body), the object itself otherwise."""
+        if isinstance(e, ast.Call):
+            fv = self.ev(e.func, env, fr) if not (isinstance(e.func, ast.Attribute) and isinstance(e.func.value, ast.Call) and isinstance(e.func.value.func, ast.Name) and e.func.value.func.id == "super") else E
+            fns = [sh for sh in fv if isinstance(sh, Fn)]
+            if fns and len(fns) == len(fv) and all(any(d.rsplit(".", 1)[-1] in ("contextmanager", "asynccontextmanager") for d in f.func.decorators) for f in fns):
+                return self.elems(self.call(e, env, fr))
+        v = self.ev(e, env, fr)
+        out: set = set()
+        for sh in v:
+            ci = self.cell(sh).ci if isinstance(sh, Ref) and sh.kind == "obj" else None
+            enter = self.repo.lookup_method(ci, "__enter__") if ci is not None else None
+            if enter is not None:
+                out |= self.call_fn(enter, V(sh), [], {}, e, fr, caller_env=env)
+                ex = self.repo.lookup_method(ci, "__exit__")
+                if ex is not None:
+                    exits.append((V(sh), ex))
+            else:
+                out.add(sh)
+        return frozenset(out)
+
+    def bind_pattern(self, pat: ast.AST, v: frozenset, env: dict, fr: Frame) -> None:
+        """Names captured by a `case` pattern."""
+        if isinstance(pat, ast.MatchAs):
+            if pat.pattern is not None:
+                self.bind_pattern(pat.pattern, v, env, fr)
+            if pat.name:
+                env[pat.name] = v
+        elif isinstance(pat, ast.MatchSequence):
+            star = any(isinstance(x, ast.MatchStar) for x in pat.patterns)
+            for i, sub in enumerate(pat.patterns):
+                part: set = set()
+                for sh in v:
+                    if isinstance(sh, Tup) and not star and len(sh.items) == len(pat.patterns):
+                        part |= sh.items[i]
+                    elif isinstance(sh, Tup):
+                        if not star:
+                            continue  # a tuple of another length does not match
+                        for it in sh.items:
+                            part |= it
+                    else:
+                        part |= self.elems(V(sh))
+                if isinstance(sub, ast.MatchStar):
+                    if sub.name:
+                        env[sub.name] = V(self.coll((id(sub), fr.inv, "star"), self.site(fr, sub), frozenset(part)))
+                else:
+                    self.bind_pattern(sub, frozenset(part), env, fr)
+        elif isinstance(pat, ast.MatchClass):
+            ci = None
+            for sh in self.ev(pat.cls, env, fr):
+                if isinstance(sh, Cls):
+                    ci = self.repo.classes.get(sh.fq)
+            names = list(ci.ann_attrs) if ci is not None else []
+            for i, sub in enumerate(pat.patterns):
+                self.bind_pattern(sub, self.attr(v, names[i], pat, env, fr) if i < len(names) else self.top("positional class pattern of an unknown class"), env, fr)
+            for n, sub in zip(pat.kwd_attrs, pat.kwd_patterns):
+                self.bind_pattern(sub, self.attr(v, n, pat, env, fr), env, fr)
+        elif isinstance(pat, ast.MatchOr):
+            for sub in pat.patterns:
+                self.bind_pattern(sub, v, env, fr)
+        elif isinstance(pat, ast.MatchMapping):
+            for sub in pat.patterns:
+                self.bind_pattern(sub, self.top("mapping pattern"), env, fr)
+            if pat.rest:
+                env[pat.rest] = self.top("mapping pattern")
+        # MatchValue / MatchSingleton capture nothing
+
+    def pattern_verdict(self, pat: ast.AST, v: frozenset, env: dict, fr: Frame) -> bool | None:
+        """True: always matches, False: never, None: unknown."""
+        if isinstance(pat, ast.MatchAs) and pat.pattern is None:
+            return True
+        if isinstance(pat, (ast.MatchValue, ast.MatchSingleton)):
+            pv = self.ev(pat.value, env, fr) if isinstance(pat, ast.MatchValue) else V(Const(pat.value))
+            if len(v) == 1 and len(pv) == 1 and isinstance(next(iter(v)), Const) and isinstance(next(iter(pv)), Const):
+                return next(iter(v)).value == next(iter(pv)).value and type(next(iter(v)).value) is type(next(iter(pv)).value)
+            ids = lambda x: {sh.key for sh in x if isinstance(sh, Ref) and sh.kind == "obj" and isinstance(sh.key, tuple) and sh.key and sh.key[0] == "enum"}  # noqa: E731
+            if v and pv and len(ids(v)) == len(v) and len(ids(pv)) == len(pv):
+                return True if ids(v) == ids(pv) and len(ids(v)) == 1 else (False if not (ids(v) & ids(pv)) else None)
+        if isinstance(pat, ast.MatchOr):
+            vs = [self.pattern_verdict(x, v, env, fr) for x in pat.patterns]
+            return True if True in vs else (False if all(x is False for x in vs) else None)
+        return None
+
+    def narrow(self, test: ast.expr, env: dict, positive: bool) -> dict:
+        """Environment of the branch in which `test` is true (positive) / false: `x is None`, `x is not None`, truthiness of a
+        name, `not`, `and` (when true) / `or` (when false) chains remove the alternatives the test excludes."""
+        if isinstance(test, ast.UnaryOp) and isinstance(test.op, ast.Not):
+            return self.narrow(test.operand, env, not positive)
+        if isinstance(test, ast.BoolOp) and ((isinstance(test.op, ast.And) and positive) or (isinstance(test.op, ast.Or) and not positive)):
+            for x in test.values:
+                env = self.narrow(x, env, positive)
+            return env
+        name, none_is_true = None, None
+        if isinstance(test, ast.Compare) and len(test.ops) == 1 and isinstance(test.left, ast.Name) and isinstance(test.comparators[0], ast.Constant) and test.comparators[0].value is None and isinstance(test.ops[0], (ast.Is, ast.IsNot, ast.Eq, ast.NotEq)):
+            name, none_is_true = test.left.id, isinstance(test.ops[0], (ast.Is, ast.Eq))
+        elif isinstance(test, ast.Name):
+            name, none_is_true = test.id, False  # truthy: not None
+            if not positive:
+                return env  # falsy: None, but also empty / zero - nothing to remove
+        if name is None or name not in env:
+            return env
+        keep_none = none_is_true == positive
+        v = env[name]
+        if keep_none:
+            if isinstance(test, ast.Compare):
+                nv = frozenset(sh for sh in v if (isinstance(sh, Const) and sh.value is None) or (isinstance(sh, Sc) and sh.none) or isinstance(sh, (Opaque, Top)))
+                nv = frozenset(Const(None) if isinstance(sh, Sc) else sh for sh in nv)
+            else:
+                nv = v
+        else:
+            nv = frozenset(replace(sh, none=False) if isinstance(sh, Sc) and sh.none else sh for sh in v if not (isinstance(sh, Const) and sh.value is None))
+        if nv:
+            env[name] = nv
         return env
 
     def early_exit(self, loop: ast.AST) -> ast.AST | None:
@@ -856,6 +1238,10 @@ class Interp:
         e = self.eid((id(s), fr.inv), f"{fr.fi.relpath}:{s.lineno}")
         self.loop_eids.add(e)
         ex = self.early_exit(s)
+        if isinstance(ex, ast.Return) and ex.value is not None and isinstance(s.iter, ast.Name) and any(isinstance(n, ast.Name) and n.id == s.iter.id for n in ast.walk(ex.value)):
+            # `for first in it: return f(chain([first], it))`: the first element is peeked at, the rest of the very same iterator is
+            # handed on in the returned value - nothing is left behind
+            ex = None
         head = dict(env)
         brk = None
         itv = None
@@ -869,6 +1255,8 @@ class Interp:
                 itv = self.ev(s.iter, head, fr)
                 iter_calls = self.ncalls != c0
             elem = self.elems(itv)
+            self.loop_srcs.setdefault(e, set()).update(x for sc in self.scalars(elem) for x in sc.srcs)
+            self.loop_parents.setdefault(e, set()).update(x for sc in self.scalars(elem) for x in sc.eids if x != e)
             # one pass per alternative shape of the element keeps the provenance of different sources apart
             alts = [V(sh) for sh in elem] if 0 < len(elem) <= 64 else [elem]
             out = None
@@ -908,9 +1296,11 @@ class Interp:
                 break
             fr.loops.append({"break": None, "cont": None})
             self.uncertain += 1
+            self.in_while += 1
             try:
                 out = self.exec_block(s.body, dict(head), fr)
             finally:
+                self.in_while -= 1
                 self.uncertain -= 1
                 lp = fr.loops.pop()
             out = self.join_env(out, lp["cont"])
@@ -943,6 +1333,19 @@ class Interp:
                     el = self.elems(V(sh))
                     for i in range(n):
                         parts[i] |= el
+                elif isinstance(sh, Ref) and sh.kind == "obj":
+                    ci = self.cell(sh).ci
+                    names = self.record_fields(ci) if self.is_namedtuple(ci) else []
+                    if names and star is None and len(names) == n:
+                        for i, nm in enumerate(names):
+                            parts[i] |= self.attr(V(sh), nm, t, env, fr)
+                    else:
+                        el = self.elems(V(sh))  # __iter__ of the class, or Top
+                        for i in range(n):
+                            parts[i] |= el
+                elif isinstance(sh, (Cls, Lib, Fn, Getter, Partial)):
+                    for i in range(n):
+                        parts[i] |= self.top(f"unpacking of a {type(sh).__name__}")
                 elif isinstance(sh, Sc):
                     for i in range(n):
                         parts[i].add(replace(sh, none=False, agg=False))
@@ -970,7 +1373,7 @@ class Interp:
             key = self.ev(t.slice, env, fr) if not isinstance(t.slice, ast.Slice) else E
             for sh in base:
                 if isinstance(sh, Ref) and sh.kind == "dict":
-                    self.store_entry(sh, key, self.bake(key, v, fr, t), explicit=self.site(fr, t))
+                    self.store_entry(sh, key, self.bake(key, v, fr, t), explicit=self.site(fr, t), accumulating=getattr(self, "_accumulating", False))
                 elif isinstance(sh, Ref) and sh.kind == "coll":
                     self.add(sh, v if not isinstance(t.slice, ast.Slice) else self.elems(v))
             return
@@ -1130,6 +1533,11 @@ class Interp:
         members = [sh for sh in cv if isinstance(sh, Ref) and sh.kind in ("coll", "dict")]
         if not members or len(members) != len(cv):
             return False
+        # a 'seen' collection that outlives the collection being filled (one result list per key, one 'seen' set for all keys) does
+        # not skip duplicates of this list: it withholds what another list already got
+        filled = [self.cells[r.key] for r in refs if isinstance(r, Ref) and r.kind in ("coll", "dict")]
+        if any(f.born - self.cells[m.key].born for f in filled for m in members):
+            return False
         a, b, c = prov(self.scalars(lv)), prov(self.scalars(self.elems(cv))), prov(self.scalars(added))
         return bool(a) and (not b or a <= b) and c <= a
 
@@ -1200,7 +1608,9 @@ class Interp:
                     return V(self.coll((id(e), fr.inv, "tup"), self.site(fr, e), frozenset().union(*[self.elems(self.ev(y.value, env, fr)) if isinstance(y, ast.Starred) else self.ev(y, env, fr) for y in e.elts])))
                 items.append(self.ev(x, env, fr))
             t = Tup(tuple(items), self.site(fr, e))
-            m = self.link_mark([self.scalars(it) for it in items], fr, e)
+            # (subject, object) built from two different pairs; members that are whole collections (a tuple of buckets) are
+            # checked where their elements are combined
+            m = self.link_mark([self.scalars(it, into_colls=False) for it in items], fr, e)
             if m is not None:
                 return self.with_marks(V(t), [m], (id(e), fr.inv, "mix"))
             return V(t)
@@ -1232,6 +1642,10 @@ class Interp:
             parts = [self.text_of(self.ev(x.value, env, fr), x, fr) for x in e.values if isinstance(x, ast.FormattedValue)]
             if not parts:
                 return V(Const("".join(x.value for x in e.values if isinstance(x, ast.Constant))))
+            if all(len(p) == 1 and isinstance(next(iter(p)), Const) and isinstance(next(iter(p)).value, (str, int)) for p in parts) and all(x.format_spec is None and x.conversion == -1 for x in e.values if isinstance(x, ast.FormattedValue)):
+                # built from constants only (`f"_create_{kind}_messages"`): a constant
+                it_ = iter(parts)
+                return V(Const("".join(x.value if isinstance(x, ast.Constant) else str(next(iter(next(it_))).value) for x in e.values)))
             return self.derive(parts, fr, e)
         if isinstance(e, ast.BinOp):
             return self.binop(self.ev(e.left, env, fr), self.ev(e.right, env, fr), e.op, e, fr)
@@ -1270,10 +1684,7 @@ class Interp:
                 return self.ev(e.orelse, env, fr)
             return self.ev(e.body, env, fr) | self.ev(e.orelse, env, fr)
         if isinstance(e, ast.Lambda):
-            nf = getattr(e, "_func", None)
-            if nf is None:
-                src = getattr(e, "_src", None)
-                nf = getattr(src[1], "_func", None) if src else None
+            nf = self.lambda_func(e, fr)
             if nf is None:
                 return self.top("lambda without function info")
             self.closures.append(env)
@@ -1341,8 +1752,11 @@ class Interp:
                 left_colls = frozenset(sh for sh in a if isinstance(sh, Ref) and sh.kind == "coll")
                 self.add(r, self.elems(left_colls))
                 if isinstance(op, (ast.Sub, ast.BitAnd)):
-                    grouped = any(self.live(sc.assoc - sc.gone) for sc in self.scalars(self.elems(left_colls)))
-                    self.add_part(r, [("part", self.site(fr, node), f"elements are removed by `{norm(node, 60)}`", grouped)])
+                    own = [sc for sc in self.scalars(b)] if isinstance(op, ast.Sub) else []
+                    if not (own and all(x for sc in own for x in [self.live(sc.eids - sc.gone) & frozenset(self.loop_eids)])):
+                        # (`all - {own}` inside the iteration over `own` is 'all the others': nothing that matters is lost)
+                        grouped = any(self.live(sc.assoc - sc.gone) for sc in self.scalars(self.elems(left_colls)))
+                        self.add_part(r, [("part", self.site(fr, node), f"elements are removed by `{norm(node, 60)}`", grouped)])
             out.add(r)
         rest_a = frozenset(sh for sh in a if not (isinstance(sh, Ref) and sh.kind == "coll"))
         rest_b = frozenset(sh for sh in b if not (isinstance(sh, Ref) and sh.kind == "coll"))
@@ -1382,6 +1796,8 @@ class Interp:
             eid = self.eid((id(e), gi, fr.inv), f"{fr.fi.relpath}:{e.lineno}")
             self.loop_eids.add(eid)
             elem = self.elems(itv)
+            self.loop_srcs.setdefault(eid, set()).update(x for sc in self.scalars(elem) for x in sc.srcs)
+            self.loop_parents.setdefault(eid, set()).update(x for sc in self.scalars(elem) for x in sc.eids if x != eid)
             alts = [V(sh) for sh in elem] if 0 < len(elem) <= 64 else [elem]
             for alt in alts:
                 cur = self.retag(alt, eid, (id(e), gi, fr.inv, "it"))
@@ -1460,9 +1876,17 @@ class Interp:
         out = set()
         for sh in base:
             if isinstance(sh, Ref) and sh.kind == "dict":
+                if self.cell(sh).factory and isinstance(e.ctx, ast.Load):
+                    # defaultdict(SomeClass)[key]: a missing key gets a fresh value from the factory
+                    made: set = set()
+                    for f in self.cell(sh).factory:
+                        made |= self.apply(f, [], {}, e, env, fr)
+                    self.store_entry(sh, key, frozenset(made))
                 out |= self.dict_lookup(sh, key, e, fr)
             elif isinstance(sh, Ref) and sh.kind == "coll":
-                out |= self.pick(self.elems(V(sh)), (sh.key, norm(e.slice, 40), fr.inv), self.site(fr, e))
+                fixed = len(key) == 1 and isinstance(next(iter(key)), Const) and isinstance(next(iter(key)).value, int)
+                # `xs[i]` and `ys[i]` (parallel lists, e.g. after `xs, ys = zip(*pairs)`) denote parts of one pair: one identity per index expression
+                out |= self.pick(self.elems(V(sh)), ("idx", norm(e.slice, 40), fr.inv), self.site(fr, e), f"only the element `{norm(e, 60)}` is used" if fixed else "")
             elif isinstance(sh, Tup):
                 idx = next(iter(key)).value if len(key) == 1 and isinstance(next(iter(key)), Const) else None
                 if isinstance(idx, int) and -len(sh.items) <= idx < len(sh.items):
@@ -1481,13 +1905,44 @@ class Interp:
                 out.add(Sc())
             elif isinstance(sh, Top):
                 out.add(sh)
+            elif isinstance(sh, Ref) and sh.kind == "obj":
+                ci = self.cell(sh).ci
+                getitem = self.repo.lookup_method(ci, "__getitem__") if ci is not None else None
+                idx = next(iter(key)).value if len(key) == 1 and isinstance(next(iter(key)), Const) else None
+                if getitem is not None:
+                    out |= self.call_fn(getitem, V(sh), [key], {}, e, fr, caller_env=env)
+                elif self.is_namedtuple(ci):
+                    names = self.record_fields(ci)
+                    if isinstance(idx, int) and not isinstance(idx, bool) and -len(names) <= idx < len(names):
+                        out |= self.attr(V(sh), names[idx], e, env, fr)
+                    else:
+                        for nm in names:
+                            out |= self.attr(V(sh), nm, e, env, fr)
+                else:
+                    out |= self.top(f"`{norm(e, 50)}`: subscript of an instance of {ci.name if ci else 'an object'}")
+            else:
+                out |= self.top(f"`{norm(e, 50)}`: subscript of a {type(sh).__name__}")
         return frozenset(out)
 
     def dict_lookup(self, ref: Ref, key: frozenset, node: ast.AST, fr: Frame) -> frozenset:
         lk = frozenset().union(*[self.live(s.eids - s.gone) for s in self.scalars(key)]) if key else E
         out: set = set()
-        for _k, v in list(self.cell(ref).entries):
+        entries = list(self.cell(ref).entries)
+        if len(key) == 1 and isinstance(next(iter(key)), Const) and entries and all(len(k) == 1 and isinstance(next(iter(k)), Const) for k, _v in entries):
+            # a table with constant keys read with a constant key (`{True: keep, False: flip}[flag]`): only that entry
+            kc = next(iter(key)).value
+            entries = [(k, v) for k, v in entries if type(next(iter(k)).value) is type(kc) and next(iter(k)).value == kc]
+        # keys made from distinct input objects (the first / the second architecture a matcher is applied to) never collide
+        origin = lambda val: frozenset(x for sc in self.scalars(val) for x in sc.srcs if str(x).startswith("evaluable#"))  # noqa: E731
+        ko = origin(key)
+        if ko:
+            entries = [(k, v) for k, v in entries if not origin(k) or origin(k) == ko]
+        for _k, v in entries:
             if lk:
+                # objects kept in a dictionary are handed out as they are (they may be changed through the reference)
+                objs = frozenset(x for x in v if isinstance(x, Ref) and x.kind == "obj")
+                out |= objs
+                v = v - objs
                 out |= self.map_scalars(v, lambda s: s if (lk <= s.assoc or not (s.srcs or s.roles)) else replace(s, assoc=s.assoc | lk), (id(node), fr.inv, "lk", ref.key))
             else:
                 out |= v
@@ -1509,19 +1964,24 @@ class Interp:
                     v = c.fields[name]
                     if (sh.key, name) in self.stale:
                         self.stale_reads.append((self.site(fr, node), self.where(fr, node), name))
-                    if c.ci is not None and c.ci.is_dataclass:
+                    if self.is_record(c.ci):
                         tag = f"fld:{c.ci.name}.{name}"
-                        v = self.map_scalars(v, lambda s, tag=tag: replace(s, srcs=s.srcs | {tag}), (id(node), fr.inv, "fld"))
+                        # collections held by a record keep their identity (they may be filled through the field)
+                        held = frozenset(x for x in v if isinstance(x, Ref) and x.kind in ("coll", "dict"))
+                        v = held | self.map_scalars(v - held, lambda s, tag=tag: replace(s, srcs=s.srcs | {tag}), (id(node), fr.inv, "fld"))
                     out |= v
                     continue
-                m = self.repo.lookup_method(c.ci, name) if c.ci is not None else None
-                if m is not None and m.is_property:
+                m = self.find_method(c.ci, name) if c.ci is not None else None
+                if m is not None and any(d.rsplit(".", 1)[-1] == "cached_property" for d in m.decorators):
+                    v = self.call_fn(m, V(sh), [], {}, node, fr)
+                    self.set_field(sh, name, v, strong=False)
+                    out |= v
+                elif m is not None and m.is_property:
                     out |= self.call_fn(m, V(sh), [], {}, node, fr)
                 elif m is not None:
                     out.add(Fn(m, V(sh)))
                 elif c.ci is not None and any(name in k.class_attrs for k in self.repo.mro(c.ci)):
-                    ce = next(k.class_attrs[name] for k in self.repo.mro(c.ci) if name in k.class_attrs)
-                    out |= V(Const(ce.value)) if isinstance(ce, ast.Constant) else V(Opaque(name))
+                    out |= self.class_attr(c.ci, name, V(sh))
                 elif name.startswith("__") and name.endswith("__"):
                     out.add(Opaque(f".{name}"))
                 else:
@@ -1532,15 +1992,20 @@ class Interp:
                 out.add(Opaque(f"{sh.tag}.{name}"))
             elif isinstance(sh, Cls):
                 ci = self.repo.classes.get(sh.fq)
-                m = self.repo.lookup_method(ci, name) if ci else None
+                m = self.find_method(ci, name) if ci else None
                 if m is not None:
                     out.add(Fn(m, V(sh) if m.is_classmethod else None))
+                elif ci is not None and self.is_enum(sh.fq) and name in self.enum_members(sh.fq):
+                    out |= self.enum_member(sh.fq, name)
+                elif ci is not None and any(name in k.class_attrs for k in self.repo.mro(ci)):
+                    out |= self.class_attr(ci, name, None)
                 else:
                     out.add(Opaque(f"{sh.fq}.{name}"))
             elif isinstance(sh, Lib):
                 out.add(Lib(f"{sh.name}.{name}"))
             elif isinstance(sh, Const):
-                out.add(Sc())
+                if sh.value is not None:  # an attribute of None is an error path
+                    out.add(Sc())
             elif isinstance(sh, Top):
                 out.add(sh)
             elif isinstance(sh, Tup):
@@ -1626,6 +2091,11 @@ class Interp:
             for f in sh.fn:
                 out |= self.apply(f, [*sh.args, *args], {**dict(sh.kwargs), **kwargs}, call, env, fr)
             return frozenset(out)
+        if isinstance(sh, Getter) and sh.kind == "call" and args:
+            out = set()
+            for x in args[0]:
+                out |= self.method(x, sh.args[0], list(sh.args[1]), dict(sh.args[2]), call, env, fr)
+            return frozenset(out)
         if isinstance(sh, Getter) and args:
             parts = []
             for a in sh.args:
@@ -1646,6 +2116,8 @@ class Interp:
                             got |= self.top(f"itemgetter on {type(x).__name__}")
                     parts.append(frozenset(got))
             return parts[0] if len(parts) == 1 else V(Tup(tuple(parts), self.site(fr, call)))
+        if isinstance(sh, Ref) and sh.kind == "obj" and self.cell(sh).ci is not None and self.repo.lookup_method(self.cell(sh).ci, "__call__") is not None:
+            return self.call_fn(self.repo.lookup_method(self.cell(sh).ci, "__call__"), V(sh), args, kwargs, call, fr, caller_env=env)
         if isinstance(sh, (Opaque, Sc)):
             if any(isinstance(x, Ref) and x.kind in ("coll", "dict") for a in [*args, *kwargs.values()] for x in a):
                 return self.top(f"call of an unknown callable with a collection argument: `{norm(call, 60)}`")
@@ -1738,6 +2210,28 @@ class Interp:
             out |= NONE_V
         return out
 
+    def field_default(self, ci: ClassInfo, fname: str, key, fr: Frame | None) -> frozenset | None:
+        """Default of a dataclass / NamedTuple field that the constructor call leaves out: `x: T = expr`,
+        `field(default=expr)`, `field(default_factory=f)` (a fresh value per constructed object)."""
+        owner = next((k for k in self.repo.mro(ci) if fname in k.class_attrs), None)
+        if owner is None:
+            return None
+        ce = owner.class_attrs[fname]
+        mfr = self.module_frame(owner.module, key)
+        if isinstance(ce, ast.Call) and (norm(ce.func) in ("field", "dataclasses.field")):
+            kw = {k.arg: k.value for k in ce.keywords if k.arg}
+            if "default_factory" in kw:
+                out: set = set()
+                for f in self.ev(kw["default_factory"], {}, mfr):
+                    out |= self.apply(f, [], {}, ce, {}, mfr)
+                return frozenset(out)
+            if "default" in kw:
+                return self.ev(kw["default"], {}, mfr)
+            return None
+        if isinstance(ce, ast.Constant) or self.static_expr(owner.module, ce, frozenset({fname}), 0, owner):
+            return self.ev(ce, {}, mfr)
+        return V(Opaque(f"{ci.name}.{fname}"))
+
     def is_generator(self, fi: FuncInfo) -> bool:
         if fi.fq not in self._gen_cache:
             self._gen_cache[fi.fq] = any(isinstance(x, (ast.Yield, ast.YieldFrom)) for x in own_nodes(fi.node))
@@ -1768,7 +2262,12 @@ class Interp:
                     vals[fields[i]] = v
             for k, v in kwargs.items():
                 vals[k] = v
-            m = self.link_mark([self.scalars(v) for v in vals.values()], fr, node)
+            for fname in fields:
+                if fname not in vals:
+                    dv = self.field_default(ci, fname, (id(node), inv, "default", fname), fr)
+                    if dv is not None:
+                        vals[fname] = dv
+            m = self.link_mark([self.scalars(v, into_colls=False) for v in vals.values()], fr, node)
             for n, v in vals.items():
                 if m is not None:
                     v = self.with_marks(v, [m], (id(node), inv, "mix", n))
@@ -1780,14 +2279,20 @@ class Interp:
     def method(self, sh, name: str, args: list, kwargs: dict, call: ast.Call, env: dict, fr: Frame, key: frozenset | None = None) -> frozenset:
         if isinstance(sh, Ref) and sh.kind == "obj":
             c = self.cell(sh)
-            m = self.repo.lookup_method(c.ci, name) if c.ci is not None else None
+            m = self.find_method(c.ci, name) if c.ci is not None else None
+            if m is not None and (m.is_property or any(d.rsplit(".", 1)[-1] == "cached_property" for d in m.decorators)):
+                # `obj.prop(args)`: the property's value is what is called
+                out = set()
+                for f in self.attr(V(sh), name, call, env, fr):
+                    out |= self.apply(f, args, kwargs, call, env, fr)
+                return frozenset(out)
             if m is not None:
                 if m.is_staticmethod:
                     return self.call_fn(m, None, args, kwargs, call, fr, caller_env=env)
                 return self.call_fn(m, V(Cls(c.ci.fq)) if m.is_classmethod else V(sh), args, kwargs, call, fr, caller_env=env)
-            if name in c.fields:
+            if name in c.fields or (c.ci is not None and any(name in k.class_attrs for k in self.repo.mro(c.ci))):
                 out: set = set()
-                for f in c.fields[name]:
+                for f in (c.fields[name] if name in c.fields else self.class_attr(c.ci, name, V(sh))):
                     out |= self.apply(f, args, kwargs, call, env, fr)
                 return frozenset(out)
             return self.top(f"method {name} not found on {c.ci.fq if c.ci else '?'}")
@@ -1797,7 +2302,12 @@ class Interp:
             return self.dict_method(sh, name, args, kwargs, call, env, fr)
         if isinstance(sh, Cls):
             ci = self.repo.classes.get(sh.fq)
-            m = self.repo.lookup_method(ci, name) if ci else None
+            m = self.find_method(ci, name) if ci else None
+            if m is None and ci is not None and any(name in k.class_attrs for k in self.repo.mro(ci)):
+                out = set()
+                for f in self.class_attr(ci, name, None):
+                    out |= self.apply(f, args, kwargs, call, env, fr)
+                return frozenset(out)
             if m is None:
                 return self.top(f"{sh.fq}.{name} not found")
             if m.is_classmethod:
@@ -1811,7 +2321,8 @@ class Interp:
             if isinstance(sh, Const) and sh.value is None:
                 return E
             if isinstance(sh, Sc) and sh.srcs:
-                self.scalar_calls.append((name, sh.srcs))
+                asrcs = frozenset(x for a in [*args, *kwargs.values()] for sc in self.scalars(a) for x in sc.srcs)
+                self.scalar_calls.append((name, sh.srcs, asrcs, self.where(fr, call)))
             if name == "join" and args:
                 el = self.text_of(self.elems(args[0]), call, fr)
                 return self.derive([V(sh) if isinstance(sh, Sc) else E, el], fr, call, check=False, agg=True)
@@ -1819,10 +2330,15 @@ class Interp:
                 return self.derive([V(sh) if isinstance(sh, Sc) else E, *[self.text_of(a, call, fr) for a in [*args, *kwargs.values()]]], fr, call)
             if name in ("split", "rsplit", "splitlines", "partition", "rpartition"):
                 return V(self.coll((id(call), fr.inv, "split"), self.site(fr, call), self.derive([V(sh) if isinstance(sh, Sc) else E], fr, call, check=False)))
-            return self.derive([V(sh) if isinstance(sh, Sc) else E, *[a for a in args if not any(isinstance(x, Ref) for x in a)]], fr, call, check=False)
+            if name in ("substitute", "safe_substitute"):
+                return self.derive([V(sh) if isinstance(sh, Sc) else E, *[self.text_of(a, call, fr) for a in [*args, *kwargs.values()]]], fr, call)
+            return self.derive([V(sh) if isinstance(sh, Sc) else E, *[a for a in [*args, *kwargs.values()] if not any(isinstance(x, Ref) for x in a)]], fr, call, check=False)
         if isinstance(sh, Opaque):
             if any(isinstance(x, Ref) and x.kind in ("coll", "dict") for a in [*args, *kwargs.values()] for x in a):
                 return self.top(f"`{norm(call, 70)}`: method of an unmodelled object receives a collection")
+            if call is self.stmt_call and any(sc.srcs - {x for x in sc.srcs if str(x).startswith("fld:")} for a in [*args, *kwargs.values()] for sc in self.scalars(a)):
+                # reported data is handed, for the effect of the call, to an object the interpreter knows nothing about (a writer, a sink ...)
+                self.note_lost(f"`{norm(call, 70)}`: data is handed to an unmodelled object")
             return self.derive([*args, *kwargs.values()], fr, call, check=False, none=True)
         if isinstance(sh, Tup):
             return V(Sc())
@@ -1855,6 +2371,15 @@ class Interp:
             sig = self.key_sig(kwargs.get("key"), els, call, env, fr) if els else None
             self.cell(sh).order = ("sorted", sig) if sig else None
             return NONE_V
+        if name in ("remove", "discard") and args:
+            # taking the current element of a running iteration out of a collection made for that very iteration (`others = set(all);
+            # others.discard(own)`) is how 'all the others' is spelled; out of a longer-lived collection it is a loss that stays
+            cell = self.cell(sh)
+            own = frozenset(x for sc in self.scalars(args[0]) for x in self.live(sc.eids - sc.gone) if x in self.loop_eids)
+            if not (own and cell.born & own):
+                grouped = any(self.live(sc.assoc - sc.gone) for sc in self.scalars(self.elems(V(sh))))
+                self.add_part(sh, [("part", self.site(fr, call), f"elements are removed by `{norm(call, 60)}`", grouped)])
+            return NONE_V
         if name in ("reverse", "remove", "discard", "clear"):
             return NONE_V
         if name in ("pop", "popleft", "__next__"):
@@ -1872,6 +2397,16 @@ class Interp:
             return V(r)
         if name in ("index", "count", "issubset", "issuperset", "isdisjoint", "__len__", "__contains__"):
             return self.derive([self.elems(V(sh))], fr, call, check=False, agg=True)
+        if name in ("write", "writelines") and isinstance(sh.key, tuple) and sh.key[-1] == "lib":
+            # text buffer (io.StringIO)
+            v = args[0] if name == "write" else self.elems(args[0]) if args else E
+            self.add(sh, v)
+            self.note_mutation([sh], v, call, env, fr)
+            return V(Sc())
+        if name == "getvalue":
+            return self.derive([self.text_of(self.elems(V(sh)), call, fr)], fr, call, check=False, agg=True)
+        if name in ("close", "flush", "seek", "truncate"):
+            return NONE_V
         return self.top(f"collection method {name}")
 
     def dict_method(self, sh: Ref, name: str, args, kwargs, call: ast.Call, env: dict, fr: Frame) -> frozenset:
@@ -1917,6 +2452,12 @@ class Interp:
             return V(r)
         if name in ("clear", "popitem"):
             return NONE_V
+        if name == "most_common":
+            return V(self.coll((id(call), fr.inv, "items", sh.key), self.site(fr, call), frozenset(Tup((k, v), "") for k, v in c.entries)))
+        if name == "elements":
+            return V(self.coll((id(call), fr.inv, "keys", sh.key), self.site(fr, call), frozenset().union(*[k for k, _ in c.entries]) if c.entries else E))
+        if name in ("fromkeys",) and args:
+            return self.lib("dict.fromkeys", args, kwargs, call, env, fr)
         return self.top(f"dict method {name}")
 
     # ------------------------------------------------------------------ library functions
@@ -1953,6 +2494,73 @@ class Interp:
             return V(Getter("item" if "itemgetter" in name else "attr", tuple(consts)))
         if name in ("functools.partial", "partial") and args:
             return V(Partial(args[0], tuple(args[1:]), tuple(sorted(kwargs.items()))))
+        if name in ("staticmethod", "types.MappingProxyType", "MappingProxyType") and len(args) == 1:
+            return args[0]
+        if name in ("functools.partialmethod", "partialmethod") and args:
+            return V(PartialMethod(args[0], tuple(args[1:]), tuple(sorted(kwargs.items()))))
+        if name in ("operator.not_", "operator.truth", "not_", "truth") and len(args) == 1:
+            # truthiness: of a collection / an aggregate it is an emptiness test
+            b = self.as_bool(args[0])
+            if b is not None:
+                return V(Const(b if short == "truth" else not b))
+            benign = bool(args[0]) and all((isinstance(sh, Ref) and sh.kind in ("coll", "dict")) or isinstance(sh, (Tup, Const)) or (isinstance(sh, Sc) and sh.agg) for sh in args[0])
+            return self.derive([self.elems(args[0]) if any(isinstance(sh, Ref) for sh in args[0]) else args[0]], fr, call, check=False, agg=benign)
+        if name in ("operator.methodcaller", "methodcaller") and args:
+            names = [c.value for c in args[0] if isinstance(c, Const) and isinstance(c.value, str)]
+            if len(names) != 1 or len(args[0]) != 1:
+                return self.top(f"`{norm(call, 60)}` with a computed method name")
+            return V(Getter("call", (names[0], tuple(args[1:]), tuple(sorted(kwargs.items())))))
+        if name in ("itertools.starmap", "starmap") and len(args) == 2:
+            # starmap(f, tuples): f(*t) per element
+            r = self.coll(key, site)
+            e = self.eid((id(call), "starmap", fr.inv), site)
+            self.loop_eids.add(e)
+            first = self.elems(args[1])
+            self.active.append(e)
+            try:
+                for alt in [V(sh) for sh in first]:
+                    cur = self.retag(alt, e, (id(call), fr.inv, "starmap"))
+                    for t in cur:
+                        if isinstance(t, Tup):
+                            for f in args[0]:
+                                self.add(r, self.apply(f, list(t.items), {}, call, env, fr))
+                        else:
+                            self.add(r, V(t) if isinstance(t, Top) else self.top(f"`{norm(call, 60)}`: elements of unknown shape are spread into arguments"))
+            finally:
+                self.active.pop()
+            return V(r)
+        if name in ("itertools.repeat", "repeat") and args:
+            return V(self.coll(key, site, args[0]))
+        if name in ("itertools.filterfalse", "filterfalse") and len(args) == 2:
+            return self.selection(key, site, args[1], args[0], None, call, env, fr)
+        if name in ("itertools.compress", "compress") and len(args) == 2:
+            return self.selection(key, site, args[0], None, args[1], call, env, fr)
+        if name in ("itertools.islice", "islice", "itertools.takewhile", "takewhile", "itertools.dropwhile", "dropwhile") and args:
+            src = args[0] if short in ("islice", "compress") else args[-1]
+            r = self.coll(key, site, self.elems(src))
+            self.cell(r).order = self.order_of(src)
+            grouped = any(self.live(sc.assoc - sc.gone) for sc in self.scalars(self.elems(src)))
+            self.add_part(r, [("part", site, f"`{norm(call, 60)}` keeps only some elements", grouped)])
+            return V(r)
+        if name in ("itertools.zip_longest", "zip_longest"):
+            r = self.coll(key, site)
+            self.add(r, V(Tup(tuple(self.elems(a) for a in args), site)))
+            return V(r)
+        if name in ("functools.reduce", "reduce") and len(args) >= 2:
+            # fold: the accumulator is whatever the function returns for (accumulator, element), to a fixpoint
+            first = self.elems(args[1])
+            acc = args[2] if len(args) > 2 else first
+            for _round in range(4):
+                nxt: set = set(acc)
+                for f in args[0]:
+                    nxt |= self.apply(f, [frozenset(acc), first], {}, call, env, fr)
+                if frozenset(nxt) == acc:
+                    break
+                acc = frozenset(nxt)
+            return frozenset(acc)
+        if name.startswith("operator.") and short.strip("_") in ("or", "ior", "add", "iadd", "concat", "iconcat", "and", "iand", "sub", "isub", "xor", "ixor") and len(args) == 2:
+            op = {"or": ast.BitOr, "ior": ast.BitOr, "add": ast.Add, "iadd": ast.Add, "concat": ast.Add, "iconcat": ast.Add, "and": ast.BitAnd, "iand": ast.BitAnd, "sub": ast.Sub, "isub": ast.Sub, "xor": ast.BitXor, "ixor": ast.BitXor}[short.strip("_")]()
+            return self.binop(args[0], args[1], op, call, fr)
         if name in ("itertools.groupby", "groupby") and args:
             r = self.coll(key, site)
             keyfn = args[1] if len(args) > 1 else kwargs.get("key")
@@ -1996,6 +2604,11 @@ class Interp:
             return V(r)
         if name in ("dict", "collections.defaultdict", "collections.OrderedDict", "defaultdict", "OrderedDict"):
             r = self.dict_(key, site)
+            if short == "defaultdict" and args:
+                fac = frozenset(sh for sh in args[0] if isinstance(sh, (Fn, Cls, Partial)) or (isinstance(sh, Lib) and sh.name not in ("list", "set", "dict", "int", "str", "float", "bool", "tuple", "frozenset")))
+                if fac and not self.cell(r).factory:
+                    self.cell(r).factory = fac
+                args = args[1:]
             for a in args:
                 for o in a:
                     if isinstance(o, Ref) and o.kind == "dict":
@@ -2005,7 +2618,7 @@ class Interp:
                         for t in self.elems(V(o)):
                             if isinstance(t, Tup) and len(t.items) == 2:
                                 # key and value were combined when the pair was built (and checked there)
-                                self.store_entry(r, t.items[0], t.items[1], explicit=site)
+                                self.store_entry(r, t.items[0], self.overwritten(t.items[0], t.items[1], site, (key, "pairs"), same_element=True), explicit=site)
                             elif isinstance(t, Top):
                                 return V(t)
             for k, v in kwargs.items():
@@ -2013,7 +2626,7 @@ class Interp:
             return V(r)
         if name in ("len", "sum", "any", "all", "min", "max", "next") or name in SCALAR_FUNCS:
             if name in ("min", "max", "next"):
-                return self.pick(self.elems(args[0]), (id(call), fr.inv), site) if args else E
+                return self.pick(self.elems(args[0]), (id(call), fr.inv), site, f"only the first element is used: `{norm(call, 60)}`" if name == "next" else "") if args else E
             if name in ("len", "sum", "any", "all"):
                 return self.derive([self.elems(a) for a in args], fr, call, check=False, agg=name == "len")
             if name in ("str", "repr", "format"):
@@ -2022,7 +2635,10 @@ class Interp:
         if name == "map" and len(args) >= 2:
             r = self.coll(key, site)
             e = self.eid((id(call), "map", fr.inv), site)
+            self.loop_eids.add(e)
             first = self.elems(args[1])
+            self.loop_srcs.setdefault(e, set()).update(x for sc in self.scalars(first) for x in sc.srcs)
+            self.loop_parents.setdefault(e, set()).update(x for sc in self.scalars(first) for x in sc.eids if x != e)
             alts = [V(sh) for sh in first] if 0 < len(first) <= 64 else [first]
             self.active.append(e)
             try:
@@ -2034,11 +2650,7 @@ class Interp:
                 self.active.pop()
             return V(r)
         if name == "filter" and len(args) >= 2:
-            r = self.coll(key, site, self.elems(args[1]))
-            self.cell(r).order = self.order_of(args[1])
-            grouped = any(self.live(sc.assoc - sc.gone) for sc in self.scalars(self.elems(args[1])))
-            self.add_part(r, [("part", site, f"`{norm(call, 60)}` keeps only some elements", grouped)])
-            return V(r)
+            return self.selection(key, site, args[1], args[0], None, call, env, fr)
         if name == "zip" and len(args) == 1 and len(args[0]) == 1 and isinstance(next(iter(args[0])), Tup) and next(iter(args[0])).site == "unzip":
             return args[0]
         if name == "zip":
@@ -2060,8 +2672,15 @@ class Interp:
                 self.add(r, self.unvet(self.elems(self.elems(a))))
             return V(r)
         if name in ("itertools.product", "product"):
+            # every element of one argument is paired with every element of the others: subject content and object content
+            # that are combined here stem from different pairs (unless they never were parts of pairs)
             r = self.coll(key, site)
-            self.add(r, V(Tup(tuple(self.elems(a) for a in args), site)))
+            items = [self.elems(a) for a in args]
+            el = V(Tup(tuple(items), site))
+            m = self.link_mark([self.scalars(it) for it in items], fr, call)
+            if m is not None:
+                el = self.with_marks(el, [m], (key, "mix"))
+            self.add(r, el)
             return V(r)
         if name in ("typing.cast", "cast") and len(args) == 2:
             return args[1]
@@ -2092,7 +2711,81 @@ class Interp:
                 for n in list(self.cell(o).fields):
                     self.store_entry(d, V(Const(n)), self.attr(V(o), n, call, env, fr))
             return V(d)
+        if name in ("collections.Counter", "Counter"):
+            # multiset: keys are the distinct elements, values are counts
+            r = self.dict_(key, site)
+            for a in args:
+                for el in self.elems(a):
+                    self.store_entry(r, V(el), V(Sc()))
+            return V(r)
+        if name in ("itertools.tee", "tee") and args:
+            a = self.coll((key, "a"), site, self.elems(args[0]))
+            b = self.coll((key, "b"), site, self.elems(args[0]))
+            self.cell(a).order = self.cell(b).order = self.order_of(args[0])
+            return V(Tup((V(a), V(b)), site))
+        if name in ("io.StringIO", "StringIO"):
+            r = self.coll(key, site)
+            for a in args:
+                self.add(r, a)
+            return V(r)
+        if name == "print" and "file" in kwargs:
+            for sh in kwargs["file"]:
+                if isinstance(sh, Ref) and sh.kind == "coll":
+                    v = self.derive([self.text_of(a, call, fr) for a in args], fr, call) if args else E
+                    self.add(sh, v)
+                    self.note_mutation([sh], v, call, env, fr)
+                elif not (isinstance(sh, Const) and sh.value is None):
+                    self.note_lost(f"`{norm(call, 60)}`: printed to an unmodelled stream")
+            return NONE_V
+        if name in ("bisect.insort", "bisect.insort_left", "bisect.insort_right", "insort", "insort_left", "insort_right", "heapq.heappush", "heappush") and len(args) >= 2:
+            for sh in args[0]:
+                if isinstance(sh, Ref) and sh.kind == "coll":
+                    v = self.unvet(self.select(args[1], call, env, fr))
+                    self.add(sh, v)
+                    self.note_mutation([sh], v, call, env, fr)
+            return NONE_V
+        if name in ("heapq.merge", "merge"):
+            r = self.coll(key, site)
+            for a in args:
+                self.add(r, self.unvet(self.elems(a)))
+            return V(r)
+        if name in ("heapq.nsmallest", "heapq.nlargest", "nsmallest", "nlargest") and len(args) >= 2:
+            r = self.coll(key, site, self.elems(args[1]))
+            grouped = any(self.live(sc.assoc - sc.gone) for sc in self.scalars(self.elems(args[1])))
+            self.add_part(r, [("part", site, f"`{norm(call, 60)}` keeps only some elements", grouped)])
+            return V(r)
         if name in ("print", "warnings.warn"):
+            return NONE_V
+        if name in ("dataclasses.replace", "replace", "copy.copy", "copy.deepcopy", "copy", "deepcopy") and args and all(isinstance(sh, Ref) for sh in args[0]) and args[0]:
+            out = set()
+            for sh in args[0]:
+                if sh.kind == "obj":
+                    src = self.cell(sh)
+                    r = self.obj((key, "copy", sh.key), src.ci, site)
+                    for n, fv in list(src.fields.items()):
+                        self.set_field(r, n, self.attr(V(sh), n, call, env, fr) if self.is_record(src.ci) else fv, strong=False)
+                    for n, fv in kwargs.items():
+                        self.cell(r).fields[n] = fv if len(args[0]) == 1 else self.cell(r).fields.get(n, E) | fv
+                        self.version += 1
+                    out.add(r)
+                elif sh.kind == "coll":
+                    r = self.coll((key, "copy", sh.key), site, self.elems(V(sh)))
+                    self.cell(r).order = self.cell(sh).order
+                    out.add(r)
+                else:
+                    r = self.dict_((key, "copy", sh.key), site)
+                    for k, v in list(self.cell(sh).entries):
+                        self.store_entry(r, k, v)
+                    out.add(r)
+            return frozenset(out)
+        if name == "setattr" and len(args) == 3:
+            names = [c.value for c in args[1] if isinstance(c, Const) and isinstance(c.value, str)]
+            if not names or len(names) != len(args[1]):
+                return self.top("setattr with a computed name")
+            for sh in args[0]:
+                if isinstance(sh, Ref) and sh.kind == "obj":
+                    for n in names:
+                        self.set_field(sh, n, args[2], strong=len(args[0]) == 1 and len(names) == 1)
             return NONE_V
         if name == "getattr" and len(args) >= 2:
             names = [c.value for c in args[1] if isinstance(c, Const) and isinstance(c.value, str)]
@@ -2108,9 +2801,61 @@ class Interp:
             return V(Opaque(name))
         if short and short[0].isupper() and short.endswith(("Error", "Exception", "Warning", "Mismatch", "Configured")):
             return V(Opaque("exception"))
+        if args and len(name.split(".")) == 2 and name.split(".")[0] in ("set", "frozenset", "list", "dict", "str", "tuple"):
+            # unbound method of a builtin type: set.union(a, b), str.join(sep, xs), list.append(xs, x)
+            out = set()
+            for sh in args[0]:
+                out |= self.method(sh, short, args[1:], kwargs, call, env, fr)
+            return frozenset(out)
         if any(isinstance(x, Ref) and x.kind in ("coll", "dict") for a in [*args, *kwargs.values()] for x in a):
             return self.top(f"library function `{name}` applied to a collection is not modelled")
         return self.derive([*args, *kwargs.values()], fr, call, check=False, none=False)
+
+    def selection(self, key, site: str, src: frozenset, pred, selectors, call: ast.AST, env: dict, fr: Frame) -> frozenset:
+        """filter(pred, xs) / filterfalse(pred, xs) / compress(xs, selectors): a sub-sequence of xs.  Like a comprehension `if`, the
+        selection only counts as dropping reported data when its condition depends on that data (not on constants, not on the
+        emptiness of a collection / an aggregate such as len())."""
+        r = self.coll(key, site)
+        self.cell(r).order = self.order_of(src)
+        first = self.elems(src)
+        e = self.eid((key, "sel"), site)
+        self.loop_eids.add(e)
+        self.loop_parents.setdefault(e, set()).update(x for sc in self.scalars(first) for x in sc.eids if x != e)
+        conds: list[frozenset] = []
+        if selectors is not None:
+            conds.append(self.elems(selectors))
+            self.add(r, first)
+        else:
+            self.active.append(e)
+            try:
+                for alt in [V(sh) for sh in first]:
+                    cur = self.retag(alt, e, (key, "sel"))
+                    cv: set = set()
+                    for f in (pred or ()):
+                        if isinstance(f, Const) and f.value is None:
+                            cv |= cur  # filter(None, xs): truthiness of the element itself
+                        else:
+                            cv |= self.apply(f, [cur], {}, call, env, fr)
+                    b = self.as_bool(frozenset(cv))
+                    keep = not b if call is not None and isinstance(call, ast.Call) and norm(call.func).endswith("filterfalse") else b
+                    if keep is False:
+                        continue
+                    conds.append(frozenset(cv))
+                    self.add(r, alt)
+            finally:
+                self.active.pop()
+        data = False
+        for cv in conds:
+            if self.as_bool(cv) is not None:
+                continue
+            if cv and all((isinstance(sh, Ref) and sh.kind in ("coll", "dict")) or isinstance(sh, (Tup, Const)) or (isinstance(sh, Sc) and sh.agg) for sh in cv):
+                continue  # emptiness
+            if self.has_top(cv) or any(sc.srcs - {x for x in sc.srcs if str(x).startswith("fld:")} for sc in self.scalars(cv)):
+                data = True
+        if data:
+            grouped = any(self.live(sc.assoc - sc.gone) for sc in self.scalars(first))
+            self.add_part(r, [("part", site, f"`{norm(call, 60)}` keeps only some elements", grouped)])
+        return V(r)
 
     # ------------------------------------------------------------------ entry points for the rules
     def root_frame(self, fi: FuncInfo | None = None) -> Frame:
@@ -2126,7 +2871,9 @@ class Interp:
         args: dict[str, frozenset] = {}
         if init is not None:
             for p in init.params[1:]:
-                args[p.arg] = by_annotation(p, init)
+                v = by_annotation(p, init)
+                if v is not None:  # None: leave the parameter to its default
+                    args[p.arg] = v
         return self.construct(ci.fq, [], args, node, fr)
 
     def call_method(self, obj: frozenset, name: str, args: list, label: str) -> frozenset:
